@@ -363,17 +363,149 @@ Proof.
   - right. eapply IH; eassumption.
 Qed.
 
-Lemma class_bases_extra mix extra x : In x extra -> In x (class_bases mix extra).
+(* ---------- the base graph: inherited fragments, reduced bases (fix 959c464) ---------- *)
+Section Bases.
+Variable g : graph.
+
+Lemma reach_spec b x : In x (reach g b) <-> reachable g b x.
+Proof. unfold reach. destruct (dfs_is_reachability g b) as [l [E [H _]]]. rewrite E. apply H. Qed.
+
+Lemma reach_nodup b : NoDup (reach g b).
+Proof. unfold reach. destruct (dfs_is_reachability g b) as [l [E [_ H]]]. rewrite E. exact H. Qed.
+
+(* a ->+ x : x is inherited by the class of fragment a *)
+Definition tcr (a x : string) : Prop := exists b, In b (succs g a) /\ reachable g b x.
+
+Lemma frag_bases_spec f x : In x (frag_bases g f) <-> tcr f x.
+Proof.
+  unfold frag_bases, tcr. rewrite in_flat_map. split; intros [b [Hb Hx]]; exists b; split; auto;
+    apply reach_spec; exact Hx.
+Qed.
+
+Lemma inherited_spec mix x : In x (inherited g mix) <-> exists f, In f mix /\ tcr f x.
+Proof.
+  unfold inherited. rewrite in_flat_map. split; intros [f [Hf Hx]]; exists f; split; auto;
+    apply frag_bases_spec; exact Hx.
+Qed.
+
+Lemma reduced_spec mix f : In f (reduced g mix) <-> In f mix /\ ~ exists f', In f' mix /\ tcr f' f.
+Proof.
+  unfold reduced. rewrite filter_In. rewrite negb_true_iff. rewrite mem_false. rewrite inherited_spec. reflexivity.
+Qed.
+
+Lemma reduced_incl mix : incl (reduced g mix) mix.
+Proof. intros x Hx. apply reduced_spec in Hx. tauto. Qed.
+
+Lemma tcr_reach a x : tcr a x -> reachable g a x.
+Proof. intros [b [Hb Hr]]. eapply r_step; eauto. Qed.
+
+Lemma reach_tcr a b x : reachable g a b -> tcr b x -> tcr a x.
+Proof.
+  intros Hab Hbx. destruct Hab as [a|a c b Hc Hcb]; [exact Hbx|].
+  exists c. split; [exact Hc|]. eapply reachable_trans; [exact Hcb | apply tcr_reach; exact Hbx].
+Qed.
+
+Lemma tcr_then_reach a b x : tcr a b -> reachable g b x -> tcr a x.
+Proof. intros [c [Hc Hcb]] Hbx. exists c. split; [exact Hc | eapply reachable_trans; eauto]. Qed.
+
+Definition acyclic_g : Prop := forall a, ~ tcr a a.
+Definition mu (a : string) : nat := List.length (reach g a).
+
+Lemma mu_strict a b : acyclic_g -> tcr a b -> mu b < mu a.
+Proof.
+  intros Hac Hab. unfold mu.
+  assert (Hnd : NoDup (a :: reach g b)).
+  { constructor; [|apply reach_nodup]. intro Hx. apply reach_spec in Hx. apply (Hac a).
+    eapply tcr_then_reach; eauto. }
+  assert (Hin : incl (a :: reach g b) (reach g a)).
+  { intros x [<-|Hx]; apply reach_spec; [constructor|]. apply reach_spec in Hx.
+    eapply reachable_trans; [apply tcr_reach; exact Hab | exact Hx]. }
+  pose proof (NoDup_incl_length Hnd Hin) as H. simpl in H. lia.
+Qed.
+
+Lemma reachable_nodes a x : reachable g a x -> x = a \/ In x (nodes g).
+Proof.
+  induction 1 as [n|a b c Hb Hr IH]; [left; reflexivity|]. right.
+  destruct IH as [->|IH]; [eapply succs_in_nodes; eauto | exact IH].
+Qed.
+
+Lemma mu_bound a : mu a <= S (List.length (nodes g)).
+Proof.
+  unfold mu. apply (NoDup_incl_length (l' := a :: nodes g) (reach_nodup a)).
+  intros x Hx. apply reach_spec in Hx. destruct (reachable_nodes _ _ Hx) as [->|H]; [left; reflexivity | right; exact H].
+Qed.
+
+(* every fragment of mix is a listed base or inherited through a listed base *)
+Lemma covered : acyclic_g -> forall mix n F, In F mix -> S (List.length (nodes g)) - mu F <= n ->
+  exists b, In b (reduced g mix) /\ reachable g b F.
+Proof.
+  intros Hac mix. induction n as [|n IH]; intros F HF Hn;
+    (destruct (mem F (inherited g mix)) eqn:M;
+     [ apply mem_In in M; apply inherited_spec in M; destruct M as [f [Hf Ht]];
+       pose proof (mu_strict _ _ Hac Ht); pose proof (mu_bound f)
+     | exists F; split; [apply filter_In; split; [exact HF | now rewrite M] | constructor] ]).
+  - lia.
+  - destruct (IH f Hf) as [b [Hb Hr]]; [lia|]. exists b. split; [exact Hb|].
+    eapply reachable_trans; [exact Hr | apply tcr_reach; exact Ht].
+Qed.
+
+Lemma covered' : acyclic_g -> forall mix F, In F mix -> exists b, In b (reduced g mix) /\ reachable g b F.
+Proof. intros Hac mix F HF. eapply covered; eauto. Qed.
+
+(* no listed base is inherited by (an ancestor of) another fragment of the set: the pattern
+   `class X(A, B)` with B a subclass of A cannot be emitted, in either order *)
+Lemma bases_no_ancestor mix a b : In a (reduced g mix) -> In b mix -> ~ tcr b a.
+Proof. intros Ha Hb Ht. apply reduced_spec in Ha. destruct Ha as [_ Ha]. apply Ha. exists b. split; assumption. Qed.
+
+(* the class hierarchy actually emitted: every fragment class lists reduced bases *)
+Definition rgraph : graph := map (fun kv => (fst kv, reduced g (snd kv))) g.
+
+Lemma succs_map (F : list string -> list string) (l : graph) a : F [] = [] ->
+  succs (map (fun kv => (fst kv, F (snd kv))) l) a = F (succs l a).
+Proof.
+  intro H0. induction l as [|[k v] r IH]; simpl; [symmetry; exact H0|].
+  destruct (String.eqb k a); [reflexivity | exact IH].
+Qed.
+
+Lemma succs_rgraph a : succs rgraph a = reduced g (succs g a).
+Proof. unfold rgraph. apply succs_map. reflexivity. Qed.
+
+Lemma rgraph_sub a x : reachable rgraph a x -> reachable g a x.
+Proof.
+  induction 1 as [n|a b c Hb Hr IH]; [constructor|]. rewrite succs_rgraph in Hb.
+  eapply r_step; [apply reduced_incl; exact Hb | exact IH].
+Qed.
+
+Lemma reach_reduced : acyclic_g -> forall n a, mu a < n -> forall x, reachable g a x -> reachable rgraph a x.
+Proof.
+  intros Hac. induction n as [|n IH]; intros a Hn x Hr; [lia|].
+  destruct Hr as [a|a b c Hb Hbc]; [constructor|].
+  destruct (covered' Hac (succs g a) b Hb) as [b' [Hb' Hr']].
+  assert (Ht : tcr a b') by (exists b'; split; [apply reduced_incl; exact Hb' | constructor]).
+  pose proof (mu_strict _ _ Hac Ht).
+  eapply r_step; [rewrite succs_rgraph; exact Hb'|].
+  apply IH; [lia|]. eapply reachable_trans; eauto.
+Qed.
+
+Lemma covered_reduced : acyclic_g -> forall mix F, In F mix ->
+  exists b, In b (reduced g mix) /\ reachable rgraph b F.
+Proof.
+  intros Hac mix F HF. destruct (covered' Hac mix F HF) as [b [Hb Hr]]. exists b. split; [exact Hb|].
+  eapply reach_reduced; eauto.
+Qed.
+End Bases.
+
+Lemma class_bases_extra g mix extra x : In x extra -> In x (class_bases g mix extra).
 Proof. intro H. unfold class_bases. apply in_or_app. right. exact H. Qed.
 
-Lemma class_bases_mixin mix extra fn : In fn mix -> In (pascal_s fn) (class_bases mix extra).
+Lemma class_bases_mixin g mix extra fn : In fn (reduced g mix) -> In (pascal_s fn) (class_bases g mix extra).
 Proof.
   intro H. unfold class_bases. apply in_or_app. left. destruct mix as [|m r]; [destruct H|].
   apply in_map. apply sort_uniq_In. exact H.
 Qed.
 
-Lemma class_bases_exact mix extra x : In x (class_bases mix extra) ->
-  In x extra \/ (mix = [] /\ x = base_model) \/ exists fn, In fn mix /\ x = pascal_s fn.
+Lemma class_bases_exact g mix extra x : In x (class_bases g mix extra) ->
+  In x extra \/ (mix = [] /\ x = base_model) \/ exists fn, In fn (reduced g mix) /\ x = pascal_s fn.
 Proof.
   unfold class_bases. intro H. apply in_app_or in H. destruct H as [H|H]; [|left; exact H]. right.
   destruct mix as [|m r].
@@ -383,47 +515,68 @@ Proof.
 Qed.
 
 (* the first class ptd emits for (cn, tn, ss): its name, and its bases as a function of the resolved set *)
-Lemma ptd_head fuel sch frags snake cn tn ss extra s cs s' :
-  ptd fuel sch frags snake cn tn ss extra s = Some (cs, s') -> mem cn (st_public s) = false ->
+Lemma ptd_head fuel sch frags g snake cn tn ss extra s cs s' :
+  ptd fuel sch frags g snake cn tn ss extra s = Some (cs, s') -> mem cn (st_public s) = false ->
   exists f fields mix unp' rest, fuel = S f /\
     resolve f sch frags ss tn (st_unp s) = Some (fields, mix, unp') /\
-    cs = {| c_name := cn; c_type := tn; c_bases := class_bases mix extra; c_frags := sort_uniq mix;
-            c_direct := direct_spreads ss |} :: rest.
+    cs = {| c_name := cn; c_type := tn; c_bases := class_bases g mix extra; c_frags := sort_uniq mix;
+            c_direct := direct_spreads ss; c_bfrags := sort_uniq (reduced g mix) |} :: rest.
 Proof.
   intros H Hm. destruct fuel as [|f]; [discriminate|]. simpl in H. rewrite Hm in H.
   destruct (resolve f sch frags ss tn (st_unp s)) as [[[fields mix] unp']|] eqn:E; [|discriminate].
-  match type of H with match ?g with _ => _ end = _ => destruct g as [[extras s2]|]; [|discriminate] end.
+  match type of H with match ?gg with _ => _ end = _ => destruct gg as [[extras s2]|]; [|discriminate] end.
   inversion H; subst. exists f, fields, mix, unp', extras. split; [reflexivity|]. split; [exact E | reflexivity].
 Qed.
 
-(* a fragment spread directly in the selection set, defined on exactly the evaluated type (not a union)
-   and without inline fragments, is a base of the class generated for that selection set *)
-Theorem mixin_instance_lemma fuel sch frags snake cn tn ss extra s cs s' fn fd :
-  ptd fuel sch frags snake cn tn ss extra s = Some (cs, s') -> mem cn (st_public s) = false ->
-  In (SSpread fn) ss -> find_frag fn frags = Some fd ->
-  is_union sch (fr_on fd) = false -> fr_on fd = tn -> existsb is_inline (fr_sel fd) = false ->
+(* EVERY fragment spread directly in the selection set, defined on exactly the evaluated type (not a
+   union) and without inline fragments, is resolved as a base, and its class is a listed base or is
+   inherited through a listed base along the emitted (reduced) class hierarchy: the object is an
+   instance of it *)
+Theorem mixin_instance_lemma fuel sch frags g snake cn tn ss extra s cs s' :
+  acyclic_g g ->
+  ptd fuel sch frags g snake cn tn ss extra s = Some (cs, s') -> mem cn (st_public s) = false ->
   exists c rest, cs = c :: rest /\ c_name c = cn /\ c_type c = tn /\
-                 In (pascal_s fn) (c_bases c) /\ In fn (c_frags c).
+    forall fn fd, In (SSpread fn) ss -> find_frag fn frags = Some fd ->
+      is_union sch (fr_on fd) = false -> fr_on fd = tn -> existsb is_inline (fr_sel fd) = false ->
+      In fn (c_frags c) /\
+      exists b, In b (c_bfrags c) /\ In (pascal_s b) (c_bases c) /\ reachable (rgraph g) b fn.
 Proof.
-  intros H Hm Hin Hf H1 H2 H3.
-  destruct (ptd_head _ _ _ _ _ _ _ _ _ _ _ H Hm) as [f [fields [mix [unp' [rest [-> [E ->]]]]]]].
+  intros Hac H Hm.
+  destruct (ptd_head _ _ _ _ _ _ _ _ _ _ _ _ H Hm) as [f [fields [mix [unp' [rest [-> [E ->]]]]]]].
   eexists; eexists. split; [reflexivity|]. simpl. split; [reflexivity|]. split; [reflexivity|].
+  intros fn fd Hin Hf H1 H2 H3.
   assert (Hmix : In fn mix).
   { eapply resolve_direct_mixin; [exact Hf | exact E | exact Hin | apply unpack_false; assumption]. }
-  split; [apply class_bases_mixin; exact Hmix | apply sort_uniq_In; exact Hmix].
+  split; [apply sort_uniq_In; exact Hmix|].
+  destruct (covered_reduced g Hac mix fn Hmix) as [b [Hb Hr]]. exists b.
+  split; [apply sort_uniq_In; exact Hb|]. split; [apply class_bases_mixin; exact Hb | exact Hr].
 Qed.
 
-(* conversely: a base of a generated class is BaseModel, a @mixin import of exactly that field /
-   definition, or the class of a fragment the resolver returned as mixin *)
-Theorem mixin_bases_lemma fuel sch frags snake cn tn ss extra s cs s' :
-  ptd fuel sch frags snake cn tn ss extra s = Some (cs, s') -> mem cn (st_public s) = false ->
+(* the listed fragment bases never contain a fragment that another fragment of the resolved set
+   (in particular: another listed base, earlier or later) inherits *)
+Theorem bases_no_ancestor_lemma fuel sch frags g snake cn tn ss extra s cs s' :
+  ptd fuel sch frags g snake cn tn ss extra s = Some (cs, s') -> mem cn (st_public s) = false ->
+  exists c rest, cs = c :: rest /\ incl (c_bfrags c) (c_frags c) /\
+    forall a b, In a (c_bfrags c) -> In b (c_frags c) -> ~ tcr g b a.
+Proof.
+  intros H Hm.
+  destruct (ptd_head _ _ _ _ _ _ _ _ _ _ _ _ H Hm) as [f [fields [mix [unp' [rest [-> [E ->]]]]]]].
+  eexists; eexists. split; [reflexivity|]. simpl. split.
+  - intros x Hx. apply sort_uniq_In. apply (reduced_incl g mix). apply (proj1 (sort_uniq_In _ _)). exact Hx.
+  - intros a b Ha Hb. apply (bases_no_ancestor g mix); [apply (proj1 (sort_uniq_In _ _)); exact Ha | apply (proj1 (sort_uniq_In _ _)); exact Hb].
+Qed.
+
+(* bases of a generated class: the @mixin imports given for exactly that field / definition are all
+   bases; nothing else is a base except BaseModel or classes of listed fragments *)
+Theorem mixin_bases_lemma fuel sch frags g snake cn tn ss extra s cs s' :
+  ptd fuel sch frags g snake cn tn ss extra s = Some (cs, s') -> mem cn (st_public s) = false ->
   exists c rest, cs = c :: rest /\ c_name c = cn /\
     (forall x, In x extra -> In x (c_bases c)) /\
     (forall x, In x (c_bases c) ->
-       In x extra \/ (c_frags c = [] /\ x = base_model) \/ exists fn, In fn (c_frags c) /\ x = pascal_s fn).
+       In x extra \/ (c_frags c = [] /\ x = base_model) \/ exists fn, In fn (c_bfrags c) /\ x = pascal_s fn).
 Proof.
   intros H Hm.
-  destruct (ptd_head _ _ _ _ _ _ _ _ _ _ _ H Hm) as [f [fields [mix [unp' [rest [-> [E ->]]]]]]].
+  destruct (ptd_head _ _ _ _ _ _ _ _ _ _ _ _ H Hm) as [f [fields [mix [unp' [rest [-> [E ->]]]]]]].
   eexists; eexists. split; [reflexivity|]. simpl. split; [reflexivity|]. split.
   - intros x Hx. apply class_bases_extra. exact Hx.
   - intros x Hx. apply class_bases_exact in Hx. destruct Hx as [Hx|[[-> ->]|[fn [Hfn ->]]]].
@@ -432,25 +585,85 @@ Proof.
     + right. right. exists fn. split; [apply sort_uniq_In; exact Hfn | reflexivity].
 Qed.
 
-(* operation / fragment definitions: every @mixin(from:, import:) on the definition is imported and is a
-   base of exactly the class generated for the definition *)
-Theorem mixin_bases_def_lemma fuel sch frags snake (o : opdef) cs s' from imp :
-  gen_op fuel sch frags snake o = Some (cs, s') -> In (from, imp) (o_mixins o) ->
+Theorem mixin_bases_def_lemma fuel sch frags g snake (o : opdef) cs s' from imp :
+  gen_op fuel sch frags g snake o = Some (cs, s') -> In (from, imp) (o_mixins o) ->
   exists c rest, cs = c :: rest /\ c_name c = pascal_s (o_name o) /\ In imp (c_bases c).
 Proof.
   unfold gen_op. intros H Hin.
-  destruct (mixin_bases_lemma _ _ _ _ _ _ _ _ _ _ _ H eq_refl) as [c [rest [-> [Hn [Hb _]]]]].
+  destruct (mixin_bases_lemma _ _ _ _ _ _ _ _ _ _ _ _ H eq_refl) as [c [rest [-> [Hn [Hb _]]]]].
   exists c, rest. split; [reflexivity|]. split; [exact Hn|]. apply Hb. unfold extra_bases.
   apply (in_map snd _ (from, imp)). exact Hin.
 Qed.
 
-Theorem mixin_bases_frag_lemma fuel sch frags snake (fd : fragdef) cs s' from imp :
-  gen_frag fuel sch frags snake fd = Some (cs, s') -> unpack_fragment sch fd None = false ->
+Theorem mixin_bases_frag_lemma fuel sch frags g snake (fd : fragdef) cs s' from imp :
+  gen_frag fuel sch frags g snake fd = Some (cs, s') -> unpack_fragment sch fd None = false ->
   In (from, imp) (fr_mixins fd) ->
   exists c rest, cs = c :: rest /\ c_name c = pascal_s (fr_name fd) /\ In imp (c_bases c).
 Proof.
   unfold gen_frag. intros H Hu Hin. rewrite Hu in H.
-  destruct (mixin_bases_lemma _ _ _ _ _ _ _ _ _ _ _ H eq_refl) as [c [rest [-> [Hn [Hb _]]]]].
+  destruct (mixin_bases_lemma _ _ _ _ _ _ _ _ _ _ _ _ H eq_refl) as [c [rest [-> [Hn [Hb _]]]]].
   exists c, rest. split; [reflexivity|]. split; [exact Hn|]. apply Hb. unfold extra_bases.
   apply (in_map snd _ (from, imp)). exact Hin.
+Qed.
+
+(* ================= the worklist never runs out of fuel ================= *)
+Lemma add_new_nodup : forall cands names added names',
+  add_new cands names = (added, names') -> NoDup names -> NoDup names'.
+Proof.
+  induction cands as [|c r IH]; intros names added names' H Hnd; simpl in H.
+  - inversion H; subst. exact Hnd.
+  - destruct (mem c names) eqn:M; [eapply IH; eauto|].
+    destruct (add_new r (names ++ [c])%list) as [a n'] eqn:E1. inversion H; subst.
+    eapply IH; [exact E1|]. apply NoDup_snoc; [exact Hnd | apply mem_false; exact M].
+Qed.
+
+Lemma work_total tbl U : (forall n, In n U -> incl (deps_of tbl n) U) ->
+  forall fuel queue names done, NoDup names -> incl names U -> incl queue names ->
+  (List.length U - List.length names) + List.length queue <= fuel ->
+  exists r, work fuel tbl queue names done = Some r.
+Proof.
+  intros HU. induction fuel as [|f IH]; intros queue names done Hnd Hin Hq Hm.
+  - destruct queue as [|n q]; simpl in *; [eexists; reflexivity | lia].
+  - destruct queue as [|n q]; simpl; [eexists; reflexivity|].
+    destruct (add_new (sort_uniq (deps_of tbl n)) names) as [added names1] eqn:E.
+    destruct (add_new_spec _ _ _ _ E) as [E1 [Hi Hc]].
+    assert (Hnd1 : NoDup names1) by (eapply add_new_nodup; eauto).
+    assert (Hin1 : incl names1 U).
+    { rewrite E1. intros x Hx. apply in_app_or in Hx. destruct Hx as [Hx|Hx]; [apply Hin; exact Hx|].
+      apply Hi in Hx. apply (proj1 (sort_uniq_In _ _)) in Hx.
+      apply (HU n); [apply Hin; apply Hq; left; reflexivity | exact Hx]. }
+    apply IH; [exact Hnd1 | exact Hin1 | |].
+    + rewrite E1. intros x Hx. apply in_app_or in Hx. apply in_or_app.
+      destruct Hx as [Hx|Hx]; [left; apply Hq; right; exact Hx | right; exact Hx].
+    + pose proof (NoDup_incl_length Hnd1 Hin1) as L1. rewrite E1 in L1. rewrite app_length in L1.
+      rewrite E1. rewrite !app_length. simpl in Hm. lia.
+Qed.
+
+Theorem fragment_present_total tbl names unp mix :
+  (forall n d, In d (deps_of tbl n) -> In d names) ->
+  let start := start_names names (exclude_of unp mix) in
+  exists names' done', work (1 + List.length names) tbl start start [] = Some (names', done') /\
+  (forall f, In f names -> In f mix -> In f names') /\
+  (forall f, In f names -> ~ In f unp -> In f names') /\
+  (forall n, In n names' -> forall d, In d (deps_of tbl n) -> In d names') /\
+  (forall x, In x names' <-> In x done').
+Proof.
+  intros Hcl start.
+  assert (Hs : incl start (nodup string_dec names)).
+  { unfold start, start_names. intros x Hx. apply (Permutation_in _ (isort_perm _)) in Hx.
+    apply filter_In in Hx. tauto. }
+  assert (Hnd : NoDup start).
+  { unfold start, start_names. eapply Permutation_NoDup; [apply Permutation_sym; apply isort_perm|].
+    apply NoDup_filter. apply NoDup_nodup. }
+  destruct (work_total tbl (nodup string_dec names)) with (fuel := 1 + List.length names)
+    (queue := start) (names := start) (done := @nil string) as [[names' done'] E].
+  - intros n _ d Hd. apply nodup_In. eapply Hcl; eauto.
+  - exact Hnd.
+  - exact Hs.
+  - apply incl_refl.
+  - pose proof (NoDup_incl_length Hnd Hs).
+    assert (List.length (nodup string_dec names) <= List.length names).
+    { apply NoDup_incl_length; [apply NoDup_nodup|]. intros x Hx. apply nodup_In in Hx. exact Hx. }
+    lia.
+  - exists names', done'. split; [exact E|]. exact (fragment_present_lemma _ _ _ _ _ _ _ E).
 Qed.
